@@ -29,7 +29,10 @@ def crafted(z, pair, zs_all=None):
     far_magic = footer + filler + zoolib.le(len(footer) + len(filler), 4)          # same, and the next bytes in the file decide
     # near-miss magics: a reader that compares only part of the magic (a prefix, case-insensitively, ...)
     # accepts the prefix ending there; the real magic is exactly "PAR1"
-    near = [("embedded-trailer-near-magic-" + m.hex(), trailer + m) for m in (b"PAR2", b"PART", b"PAR\x00", b"par1", b"PARE", b"\x00AR1", b"1RAP")]
+    # a value that is just the magic (PLAIN writes it as 04 00 00 00 "PAR1": "a footer of length 4") and one preceded by a
+    # zero length
+    tiny = [("value-is-the-magic", b"PAR1"), ("value-zero-length-then-magic", b"\x00\x00\x00\x00PAR1"), ("value-magic-twice", b"PAR1PAR1")]
+    near = tiny + [("embedded-trailer-near-magic-" + m.hex(), trailer + m) for m in (b"PAR2", b"PART", b"PAR\x00", b"par1", b"PARE", b"\x00AR1", b"1RAP")]
     # a complete one-record file of the same struct inside the value of the LAST column of the last page, followed by
     # more bytes of that value: the prefix ending right after the embedded file's magic has a decodable footer of the
     # right table, but its last page is cut short (struct samename: the last column is an optional string)
